@@ -1,15 +1,15 @@
 CONSTANTS
  MaxLen = 2
- ReadSizes = {1, 2, 5}
+ ReadSizes = {1, 5}
  MaxDrops = 0
  MaxFails = 0
- MaxSeeks = 1
+ MaxSeeks = 0
  MaxAgain = 1
  RetryLimit = 3
- Schemes = {"reg", "ocidir"}
+ Schemes = {"reg"}
  Vias = {"reader"}
  Withs = {TRUE, FALSE}
- Chunks = {1, 5}
+ Chunks = {5}
  LyingSizes = TRUE
  InlineData = TRUE
 INIT Init
